@@ -72,11 +72,18 @@ def real_select(pgns, pgn, group, x):
         if hasattr(pgns, n):
             saved[n] = getattr(pgns, n)
             setattr(pgns, n, (lambda pid: (lambda data: called.append(pid) or None))(p["Id"]))
+    out = None
     try:
-        getattr(pgns, f"decode_pgn_{pgn}")(x)
+        out = getattr(pgns, f"decode_pgn_{pgn}")(x)
+    except Exception as e:
+        # the dispatcher itself failed (the per-definition decoders are replaced by stubs here): it selected nothing it could call
+        out = f"raised {type(e).__name__}"
     finally:
         for n, f in saved.items():
             setattr(pgns, n, f)
+    if not called and out is not None:
+        # nothing of this PGN was selected, yet something came back: a definition of ANOTHER PGN, or an exception
+        return out if isinstance(out, str) else f"other:{getattr(out, 'PGN', '?')}/{getattr(out, 'id', '?')}"
     return called[0] if called else None
 
 
@@ -100,6 +107,13 @@ def search(ctx, broken, corr_broken):
                          "replay": {"kind": "selection", "pgn": pgn, "payload": str(x), "expected": exp}}]
     hit, n2 = _public_path(ctx, pgns, db, rnd)
     LAST_SEARCH_CANDIDATES = n + n2
+    if not hit:
+        # the encode side selects by PGN and id: one long-lived encoder, several definitions of a PGN one after the other
+        import enccorr
+        h3, n3 = enccorr.monitor_shared(ctx, "C08")
+        LAST_SEARCH_CANDIDATES += n3
+        if h3:
+            return h3[:1]
     if hit:
         return [{"key": f"C08/selection-live-decoder/{hit['pgn']}/{hit['expected']}-vs-{hit['got']}",
                  "what": f"PGN {hit['pgn']} payload {hit['payload']} through a decoder that has seen other payloads of this PGN: database rule selects {hit['expected']}, the decoder returns {hit['got']}",
@@ -108,6 +122,9 @@ def search(ctx, broken, corr_broken):
 
 
 def replay(rp):
+    if rp.get("kind") == "encoder-history":
+        import enccorr
+        return enccorr.replay_shared(rp)
     if rp.get("kind") == "selection-live":
         # re-run the history of payloads through one live decoder; the last one is the failing input
         harness.load_repo()
